@@ -22,6 +22,7 @@ import (
 	"fmt"
 	"math/rand"
 	"os"
+	"runtime/debug"
 
 	_ "github.com/wader/fq/format/all"
 	"github.com/wader/fq/internal/bitiox"
@@ -90,6 +91,7 @@ func tok(c, dir, p int) int { return c*100000 + dir*10000 + p }
 // many: one connection whose client sends several hundred small segments (the reassembler's per-connection page budget, the
 // sequence-number arithmetic over hundreds of segments and what follows a gap by far)
 var many bool
+
 func nz(p []Pkt) []Pkt {
 	if p == nil {
 		return []Pkt{}
@@ -509,6 +511,13 @@ type rawSide struct {
 type rawConn struct{ cl, sv rawSide }
 
 func runFq(format string, file []byte) (conns []rawConn, reasm [][]byte, errs string) {
+	defer func() {
+		// a Go panic that escapes decode.Decode would end fq; it is recorded as the outcome of this capture (no streams reported)
+		if r := recover(); r != nil {
+			conns, reasm = nil, nil
+			errs = fmt.Sprintf("panic: %v\n%s", r, debug.Stack())
+		}
+	}()
 	gname := "pcap"
 	if format == "pcapng_le" || format == "pcapng_be" {
 		gname = "pcapng"
@@ -693,9 +702,9 @@ func randomHistory(rng *rand.Rand, big bool) *History {
 		nc = 1
 	}
 	type cs struct {
-		n, nxt [3]int
-		fin    [3]bool
-		q      []Pkt // handshake packets still to send
+		n, nxt  [3]int
+		fin     [3]bool
+		q       []Pkt // handshake packets still to send
 		wantFin bool
 	}
 	isnCls := []string{"low", "wrap", "half"}
